@@ -219,10 +219,83 @@ def fac_id(f):
         return 99
 
 
+# ------------------------------------------------------------------ event numbers of any kind (log.msg(num=ANYTHING))
+class NumObj(object):
+    """an application object passed as num=: not an int, isinstance works, not JSON-encodable"""
+    def __repr__(self):
+        return "<NumObj>"
+
+
+class NumEvilClass(object):
+    """isinstance(x, int) ITSELF raises on this object (its __class__ attribute is a property that raises)"""
+    @property
+    def __class__(self):
+        raise RuntimeError("no __class__ for you")
+
+    def __repr__(self):
+        return "<NumEvilClass>"
+
+
+class NumIntSub(int):
+    """an int subclass (isinstance holds) whose ordering raises"""
+    def __lt__(self, other):
+        raise RuntimeError("NumIntSub.__lt__")
+    __gt__ = __le__ = __ge__ = __lt__
+
+
+# kind name -> (builder, model kind, code).  The code stands for the object in every view / return value the harness
+# compares with the model (e_num of a NumOdd / NumHostile event is exactly this identity tag).
+NUM_KINDS = {
+    "str": (lambda: "x", "NumOdd", -7000001),
+    "none": (lambda: None, "NumOdd", -7000002),
+    "float": (lambda: 1.5, "NumOdd", -7000003),
+    "list": (lambda: [1], "NumOdd", -7000004),
+    "obj": (NumObj, "NumOdd", -7000005),
+    "evilclass": (NumEvilClass, "NumHostile", -7000006),
+    "intsub": (lambda: NumIntSub(5), None, -7000007),        # outside the model's three kinds (oracle only)
+}
+NUM_NATIVE = ["str", "none", "float"]        # JSON scalars: the number itself reads back unchanged from every stage (a list is replaced by the last-resort stage)
+_NOTHING = object()
+
+
+def build_num(spec):
+    """op[1] of a msg op: None (the logger numbers the event), an int, or ["odd", kind]"""
+    if isinstance(spec, (list, tuple)):
+        return NUM_KINDS[spec[1]][0]()
+    return spec
+
+
+def numcode(v, default=None):
+    """canonical integer for an event number of any kind (also after a JSON round trip)"""
+    if type(v) is int:
+        return v
+    if v is None:
+        return default if default is not None else NUM_KINDS["none"][2]
+    if isinstance(v, NumEvilClass) or type(v) is NumEvilClass:
+        return NUM_KINDS["evilclass"][2]
+    if type(v) is NumIntSub:
+        return NUM_KINDS["intsub"][2]
+    if v == "x":
+        return NUM_KINDS["str"][2]
+    if type(v) is float and v == 1.5:
+        return NUM_KINDS["float"][2]
+    if v == [1]:
+        return NUM_KINDS["list"][2]
+    if isinstance(v, NumObj) or (isinstance(v, dict) and v.get("repr") == "<NumObj>") or v == "<NumObj>":
+        return NUM_KINDS["obj"][2]
+    if isinstance(v, dict) and v.get("repr") == "<NumEvilClass>":
+        return NUM_KINDS["evilclass"][2]
+    if isinstance(v, int):          # bool, other int subclasses
+        return int(v)
+    return -7999999
+
+
 def view(ev):
     if not isinstance(ev, dict):       # an event that was read back as something else (a replacement text)
         return [None, None]
-    return [ev.get("num"), ev_id(ev)]
+    if "num" not in ev:
+        return [None, ev_id(ev)]
+    return [numcode(ev["num"]), ev_id(ev)]
 
 
 class RaisingQualifier(incident.IncidentQualifier):
@@ -248,8 +321,13 @@ STOPPED_WITH = {}
 _orig_stop_recording = incident.IncidentReporter.stop_recording
 
 
+def _trig_num(ir):
+    t = getattr(ir, "trigger", None) or {}
+    return numcode(t["num"]) if "num" in t else None
+
+
 def _recording_stop(self):
-    STOPPED_WITH[(id(self.logger), (getattr(self, "trigger", None) or {}).get("num"))] = getattr(self, "remaining_events", None)
+    STOPPED_WITH[(id(self.logger), _trig_num(self))] = getattr(self, "remaining_events", None)
     return _orig_stop_recording(self)
 
 
@@ -293,14 +371,14 @@ class LoggerRig(object):
             self.L.addObserver(self.lfo.msg)
 
     def _saw(self, ev):
-        self.emitted[(ev.get("num"), ev_id(ev))] = ev
+        self.emitted[(numcode(ev.get("num")), ev_id(ev))] = ev
         self.order.append(ev)
         L = self.L
         ir = L.get_active_incident_reporter()
         subscribed = any(getattr(o, "__name__", "") == "trailing_event" for o in L._observers)
         # (never keep a strong reference to a reporter: the logger tracks the active one through a weakref)
         self.at_emission[id(ev)] = dict(reporter=(weakref.ref(ir) if ir is not None else None), subscribed=subscribed,
-                                        trigger_num=(getattr(ir, "trigger", None) or {}).get("num") if ir is not None else None,
+                                        trigger_num=_trig_num(ir) if ir is not None else None,
                                         phase=("none" if ir is None else
                                                "recording" if getattr(ir, "still_recording", True) else "stopped-but-active"))
 
@@ -454,7 +532,7 @@ def do_call(rig, op):
             if fac != 0:
                 kw["facility"] = FACS[fac]
             if num is not None:
-                kw["num"] = num
+                kw["num"] = build_num(num)
             args = ("m%d" % cid,)
             if shape == "format":
                 kw["format"] = "m%d %%(cid)s %%(x)s" % cid
@@ -619,18 +697,24 @@ def make_subscription(maxq, maxfl, prefill=(), catch_up=False):
             kw = dict(level=o[2], cid=o[3])
             if o[1]:
                 kw["facility"] = fac(o[1])
+            if len(o) > 4 and o[4] is not None:
+                kw["num"] = build_num(o[4])          # the caller's own number, of any kind
             L.msg("m", **kw)
     E.turn()
     obs = FakeObserver()
     s = cls(obs, L)
-    s.subscribe(catch_up)
-    return L, obs, s
+    raised = None
+    try:
+        s.subscribe(catch_up)
+    except Exception as e:          # (publish.py runs subscribe from the eventual queue: the exception is logged there)
+        raised = e
+    return L, obs, s, raised
 
 
 def run_subscription(maxq, maxfl, ops, rng, prefill=(), catch_up=False):
     """ops: list of 'S'/'T'/'A'/'N'; -> observation right after subscribe(), per-step observations, final
     delivered/queue ids, the catch-up batch handed to callRemoteOnly"""
-    L, obs, s = make_subscription(maxq, maxfl, prefill, catch_up)
+    L, obs, s, sub_raised = make_subscription(maxq, maxfl, prefill, catch_up)
     pending = []
     seen = 0
     steps = []
@@ -664,7 +748,7 @@ def run_subscription(maxq, maxfl, ops, rng, prefill=(), catch_up=False):
     for d in pending:          # do not leave unfired Deferreds with errbacks around
         d.addErrback(lambda f: None)
     return dict(steps=steps, delivered=delivered, queue=queue, emitted=cid, first_cid=first_cid, rets=rets,
-                at_subscribe=at_subscribe, only=[e["cid"] for e in obs.only],
+                at_subscribe=at_subscribe, only=[e["cid"] for e in obs.only], subscribe_raised=sub_raised,
                 buffered=sorted(e["cid"] for e in L.get_buffered_events() if e["cid"] < first_cid),
                 limits=(s.MAX_QUEUE_SIZE, s.MAX_IN_FLIGHT))
 
@@ -702,7 +786,7 @@ class JBuilder(object):
            ["list",name,[spec..]] ["tuple",[spec..]] ["dict",name,[[keyspec,spec]..]] ["ref",name] ["deep",n,spec]
     keyspec: ["str",s] ["int",n] ["pow2",bits] ["float",x] ["bool",b] ["none"] ["bytes",s] ["tuple",[ints]] ["obj"] ["badrepr"]
     `name` (or None) names a list / dict so that ["ref", name] inside it denotes the container itself."""
-    FIXED_KEYS = {"from": 1, "rx_time": 2, "d": 3, "header": 4, "type": 5, "trigger": 6, "num": 7, "level": 8, "message": 9}
+    FIXED_KEYS = {"from": 1, "rx_time": 2, "d": 3, "header": 4, "type": 5, "trigger": 6, "num": 7, "level": 8, "message": 9, "format": 10}
 
     def __init__(self):
         self.table = {}
